@@ -1,6 +1,10 @@
 P = dict(
     bin="egv_c17", trace="Trace_C17", level="model_checking",
-    mc=[dict(module="MC_C17", quick_cfg="MC_C17.cfg", thorough_cfg="MC_C17_thorough.cfg")],
+    mc=[dict(module="MC_C17", quick_cfg="MC_C17.cfg", thorough_cfg="MC_C17_thorough.cfg"),
+        # negative controls TLC must refute: a Bresenham without minor steps; and the open finding D17 reproduced in the
+        # MODEL of ParallelsIterator/ThickPoints (witness Line (3,-2)->(26,10), w = 40 leaves the band)
+        dict(module="MC_C17", quick_cfg="MC_C17_control.cfg", thorough_cfg="MC_C17_control.cfg", expect_violation=True, coverage=False),
+        dict(module="MC_C17", quick_cfg="MC_C17_d17.cfg", thorough_cfg="MC_C17_d17.cfg", expect_violation=True, coverage=False)],
     drift_checked=True,
     required_events=["line"],
     level_text="TLC steps the transcribed Bresenham machine (one action per next()) for every delta of a square from two start "
